@@ -466,7 +466,9 @@ pub fn run(tier: Tier, seed: u64) -> i32 {
         check_case,
     );
     stats.space(json!({"space": "fused pairs of well-formed members (first terminator forgotten) and token patterns repeated 1..=24, 32, 40, 48, 64 and 96 times", "cases": nf}));
-    let multi = stats.outcome_count("syntax-errors:2") + stats.outcome_count("syntax-errors:3") + stats.outcome_count("syntax-errors:4");
+    // how many recoveries one malformed member costs is the implementation's choice (a parser that
+    // resynchronises at the terminator reports exactly one): counted in the outcomes, not demanded
+    let any = (1..=4).map(|k| stats.outcome_count(&format!("syntax-errors:{k}"))).sum::<u64>();
     finish(
         &stats,
         "item kind (3) x position of the malformed member (first / middle / last among 2-3 well-formed siblings drawn from 4 forms, rotated) x every token string up to the stated length over the vocabulary minus terminators and braces, followed by the normal terminator, kept when the reference grammar says it is not itself a well-formed member; plus all fused pairs of well-formed members; oracle: tree present, siblings intact in order (extra members only inside the malformed extent), at least one syntax Error, every syntax diagnostic inside the malformed member's extent; distinct_nontrivial counts distinct source texts",
@@ -475,7 +477,7 @@ pub fn run(tier: Tier, seed: u64) -> i32 {
             "syntax-stage diagnostics are read through hook H1",
         ],
         &|c| check_case(c).to_result(),
-        &[("cases with several recovered errors occur", multi > 0)],
+        &[("malformed members with syntax errors occur", any > 0)],
     )
 }
 
